@@ -116,3 +116,8 @@ package unixfsnode
 //@ at call io.Copy#1 assert consumes-the-matched-nodes-own-reader: callee_src == rdr
 //@ at return assert a-matched-large-bytes-node-is-read-to-the-end: err == nil && ok ==> rdr != nil && drained(rdr)
 //@ ensures load-failure-is-returned: err == nil ==> loadFailed == old(loadFailed)
+
+// C03 / C14: both UnixFS reifiers are registered under their names, whatever was registered before.
+//@ func unixfsnode.AddUnixFSReificationToLinkSystem
+//@ prop C03 C06 C14
+//@ ensures both-reifiers-are-registered: lsys.KnownReifiers != nil && maphas(lsys.KnownReifiers, "unixfs") && maphas(lsys.KnownReifiers, "unixfs-preload")
